@@ -8,21 +8,20 @@ import (
 	"strconv"
 )
 
-func newMultipleOf(astNode schema.ASTNode) *float64 {
+func newMultipleOf(astNode schema.ASTNode) *Number {
 	if astNode.Rules.Has("precision") {
 		v := astNode.Rules.GetValue("precision").Value
 		precision, err := strconv.ParseFloat(v, 64)
 		if err != nil {
 			return nil
 		}
-
 		// from api schema validation, precision can not be zero
-		multipleOf := 1 / math.Pow(10, precision)
-		if multipleOf == 0 {
+		if 1/math.Pow(10, precision) == 0 {
 			return nil
 		}
-
-		return &multipleOf
+		// 10^-precision, written out: a float64 cannot hold it exactly and
+		// spells it 1.0000000000000001e-23 for precision 23
+		return newNumber("1e-" + v)
 	}
 	return nil
 }
